@@ -174,20 +174,19 @@ Definition add_value (p : param) (v : pyval) : res (option pyval) :=
   end.
 
 (* ================================ from_dict / construction ================================ *)
+(* one iteration of the loop in from_dict: None = nothing stored for this key *)
+Definition from_dict_step (c : mclass) (k : pystr) (v : pyval) : res (option pyval) :=
+  if is_blank v then Ok None
+  else match lookup c k with
+       | None => Ok (Some v)
+       | Some p => add_value p v
+       end.
+Definition store (k : pystr) (a : option pyval) (m : msg) : msg :=
+  match a with None => m | Some w => aset k w m end.
 Fixpoint from_dict_go (c : mclass) (d : msg) (m : msg) : res msg :=
   match d with
   | [] => Ok m
-  | (k, v) :: r =>
-      if is_blank v then from_dict_go c r m
-      else match lookup c k with
-           | None => from_dict_go c r (aset k v m)
-           | Some p =>
-               a <- add_value p v ;;
-               match a with
-               | None => from_dict_go c r m
-               | Some w => from_dict_go c r (aset k w m)
-               end
-           end
+  | (k, v) :: r => a <- from_dict_step c k v ;; from_dict_go c r (store k a m)
   end.
 (* m.from_dict(d) for an existing message m *)
 Definition from_dict (c : mclass) (d : msg) (m : msg) : res msg :=
@@ -405,3 +404,127 @@ Definition authz_verify (c : mclass) (nonce_kw : option pystr) (m : msg) : res m
 (* ================================ comparison helpers ================================ *)
 Definition entry_eqb (a b : pystr * pyval) : bool := str_eqb (fst a) (fst b) && pyval_eqb (snd a) (snd b).
 Definition msg_eqb (a b : msg) : bool := list_eqb entry_eqb a b.
+
+(* ================================ the modelled fragment; validity ================================
+   Boolean predicates used in the statements of the theorems (Props/C10.v, Props/C11.v). *)
+Inductive mkind := KStr | KInt | KBool | KList | KSpSep.
+Definition modelled_kind (p : param) : option mkind :=
+  match p_ty p, p_ser p, p_deser p, p_null p with
+  | PScalar TStr, SNone, DNone, false => Some KStr
+  | PScalar TInt, SNone, DNone, false => Some KInt
+  | PScalar TBool, SNone, DNone, false => Some KBool
+  | PList TStr, SList, DList, false => Some KList
+  | PList TStr, SSpSep, DSpSep, false => Some KSpSep
+  | _, _, _, _ => None
+  end.
+Definition param_modelled (p : param) : bool :=
+  match modelled_kind p with Some _ => true | None => false end.
+
+Definition encodable (s : pystr) : bool := forallb is_scalar s.       (* s.encode("utf-8") succeeds *)
+Definition no_space (s : pystr) : bool := no_c sp s.
+(* a non-empty list of str that is not [""] (from_dict skips [] and [""]) *)
+Definition str_list_ok (l : list pyval) : bool :=
+  forallb is_str l && match l with [] => false | [VStr []] => false | _ => true end.
+
+(* ---- a value a parameter of the given kind can hold (what construction stores for it) ---- *)
+Definition valid_value (k : mkind) (v : pyval) : bool :=
+  match k, v with
+  | KStr, VStr s => nonempty s
+  | KInt, VInt _ => true
+  | KBool, VBool _ => true
+  | KList, VList l => str_list_ok l
+  | KSpSep, VList l => str_list_ok l && forallb (fun x => no_space (str_of x)) l
+      (* an element with a space is not a value of a space-separated list *)
+  | _, _ => false
+  end.
+Definition valid_extra (v : pyval) : bool := negb (is_blank v) && negb (holds_message v).
+Definition valid_entry (c : mclass) (kv : pystr * pyval) : bool :=
+  match lookup c (fst kv) with
+  | None => valid_extra (snd kv)
+  | Some p => match modelled_kind p with Some k => valid_value k (snd kv) | None => false end
+  end.
+Definition keys (m : msg) : list pystr := List.map fst m.
+(* a message of the modelled fragment: every entry valid for its schema, keys distinct, the class
+   defaults present (as they are in every constructed message) *)
+Definition valid_msg (c : mclass) (m : msg) : bool :=
+  negb (has_star c) && forallb (valid_entry c) m && nodup_str (keys m)
+  && forallb (fun kv => has_key (fst kv) m) (c_default c).
+
+(* ---- form encoding: what it can carry ---- *)
+Definition form_extra (v : pyval) : bool :=
+  match v with VStr s => nonempty s | VInt _ | VBool _ => true | _ => false end.
+Definition all_encodable (v : pyval) : bool :=
+  match v with
+  | VStr s => encodable s
+  | VList l => forallb (fun x => encodable (str_of x)) l
+  | _ => true
+  end.
+Definition form_entry (c : mclass) (kv : pystr * pyval) : bool :=
+  encodable (fst kv) && all_encodable (snd kv)
+  && match lookup c (fst kv) with None => form_extra (snd kv) | Some _ => true end.
+Definition valid_form (c : mclass) (m : msg) : bool :=
+  valid_msg c m && forallb (form_entry c) m && negb (missing_required c m).
+(* the guard of known finding F17: elements of list_serializer lists contain no space *)
+Definition list_elems_no_space (c : mclass) (m : msg) : bool :=
+  forallb (fun kv => match lookup c (fst kv) with
+                     | Some p => match modelled_kind p, snd kv with
+                                 | Some KList, VList l => forallb (fun x => no_space (str_of x)) l
+                                 | _, _ => true
+                                 end
+                     | None => true
+                     end) m.
+(* the textual rendering of int and bool, which form encoding cannot distinguish from str *)
+Definition form_render (v : pyval) : pyval :=
+  match v with
+  | VInt z => VStr (str_of_int z)
+  | VBool true => VStr (PS "True")
+  | VBool false => VStr (PS "False")
+  | _ => v
+  end.
+
+(* ---- the schema as the property text reads it (C11): required present and non-empty,
+        enumerated values inside their set ---- *)
+Definition required_ok (m : msg) (p : param) : bool :=
+  negb (p_req p) ||
+  match assoc (p_name p) m with
+  | Some v => is_bool_ty (p_ty p) || py_truthy v
+  | None => false
+  end.
+Definition enumerated_ok (c : mclass) (m : msg) (p : param) : bool :=
+  match assoc (p_name p) (c_allowed c), assoc (p_name p) m with
+  | Some al, Some v =>
+      if negb (is_bool_ty (p_ty p)) && negb (py_truthy v) then true      (* an empty optional value *)
+      else type_check (p_ty p) al v (p_null p)
+  | _, _ => true
+  end.
+Definition schema_ok (c : mclass) (m : msg) : bool :=
+  forallb (fun p => str_eqb (p_name p) star || (required_ok m p && enumerated_ok c m p)) (c_params c).
+
+(* ---- typed slots (C11): the value _add_value stores has the declared type ---- *)
+Definition has_type (t : ptype) (v : pyval) : bool :=
+  match t with
+  | PScalar TStr => is_str v
+  | PScalar TInt => match v with VInt _ => true | _ => false end
+  | PScalar TBool => match v with VBool _ => true | _ => false end
+  | PScalar TDict => match v with VDict _ => true | _ => false end
+  | PList TStr => match v with VList l => forallb is_str l | _ => false end
+  | _ => false
+  end.
+(* the guard of the list-slot defect: a dict given to a [str] parameter is stored as it is *)
+Definition slot_guard (p : param) (v : pyval) : bool :=
+  match p_ty p, v with PList _, VDict _ => false | _, _ => true end.
+(* w is v, or v coerced without loss of information *)
+Definition lossless (p : param) (v w : pyval) : bool :=
+  pyval_eqb v w ||
+  match p_ty p, v, w with
+  | PScalar TInt, VStr s, VInt z => match py_int s with Ok z' => Z.eqb z z' | _ => false end
+  | PList TStr, VStr s, VList l =>
+      match p_deser p with
+      | DList => list_eqb str_eqb (strs l) [s]
+      | DSpSep => str_eqb (join [sp] (strs l)) s
+      | _ => false
+      end
+  | PList TStr, VList [VStr s], VList l =>
+      match p_deser p with DSpSep => str_eqb (join [sp] (strs l)) s | _ => false end
+  | _, _, _ => false
+  end.
